@@ -16,6 +16,7 @@ import (
 	"sort"
 	"strconv"
 	"strings"
+	"sync/atomic"
 	"syscall"
 	"time"
 
@@ -33,6 +34,7 @@ type sinkCall struct {
 	sync bool
 	data []byte
 	at   int
+	thr  int // scheduler thread that made the call
 }
 
 type sink struct {
@@ -51,7 +53,7 @@ func (s *sink) Write(p []byte) (int, error) {
 		vsched.Yield() // a sink call takes time: other threads can act while the syncer is inside it
 	}
 	*s.now++
-	s.calls = append(s.calls, sinkCall{data: append([]byte(nil), p...), at: *s.now})
+	s.calls = append(s.calls, sinkCall{data: append([]byte(nil), p...), at: *s.now, thr: vsched.Current()})
 	return len(p), nil
 }
 
@@ -60,16 +62,22 @@ func (s *sink) Sync() error {
 		vsched.Yield()
 	}
 	*s.now++
-	s.calls = append(s.calls, sinkCall{sync: true, at: *s.now})
+	s.calls = append(s.calls, sinkCall{sync: true, at: *s.now, thr: vsched.Current()})
 	if s.failSync {
 		return errSinkSync
 	}
 	return nil
 }
 
-type clock struct{ ch chan time.Time }
+type clock struct {
+	ch  chan time.Time
+	now atomic.Int64
+}
 
-func (c *clock) Now() time.Time { return time.Unix(0, 0) }
+// Now is far ahead of the stamps the ticks carry (Unix(1,0)) and advances with every reading:
+// the flush loop picks every tick up late, as a descheduled process does - a late tick is
+// still a tick, and nothing else may depend on the clock.
+func (c *clock) Now() time.Time { return time.Unix(1_000_000+c.now.Add(1), 0) }
 func (c *clock) NewTicker(time.Duration) *time.Ticker {
 	vsched.Yield() // creating the ticker takes time: a scheduling point inside the syncer's lazy initialisation
 	return &time.Ticker{C: c.ch}
@@ -434,9 +442,14 @@ type concRun struct {
 	err     string
 	key     string
 	end     string
+	callers map[int]bool // scheduler threads that execute the callers' operations
 }
 
 func (c *concRun) do(ws *zapcore.BufferedWriteSyncer, clk *clock, thr, idx int, op cop, nextID *byte) {
+	if c.callers == nil {
+		c.callers = map[int]bool{}
+	}
+	c.callers[vsched.Current()] = true
 	c.now++
 	r := &opRec{thr: thr, idx: idx, op: op, inv: c.now}
 	c.recs = append(c.recs, r)
@@ -463,6 +476,7 @@ func (c *concRun) do(ws *zapcore.BufferedWriteSyncer, clk *clock, thr, idx int, 
 }
 
 func (c *concRun) body() {
+	c.callers = map[int]bool{vsched.Current(): true}
 	c.sk = &sink{now: &c.now, slow: true}
 	clk := &clock{ch: make(chan time.Time, 1)}
 	ws := &zapcore.BufferedWriteSyncer{WS: c.sk, Size: c.size, Clock: clk, FlushInterval: time.Hour}
@@ -520,6 +534,38 @@ func (c *concRun) check() (string, error) {
 		case "Sync", "Stop":
 			if r.err != nil {
 				return "", fmt.Errorf("%s by thread %d returned %v", r.op.kind, r.thr, r.err)
+			}
+		}
+	}
+	// 1b. once a Stop of a started syncer has returned, no flush work is running any more:
+	// a sink call made after that by a thread that is not one of the callers is such work
+	for _, st := range c.recs {
+		if st.op.kind != "Stop" || st.ret == 0 {
+			continue
+		}
+		started := false
+		for _, w := range c.recs {
+			if w.op.kind == "W" && w.ret != 0 && w.ret < st.inv {
+				started = true
+			}
+		}
+		// a Stop that returns while an earlier Stop is still at work did not do the stopping
+		// (a repeated Stop returns at once): the statement is about the one that did
+		for _, o := range c.recs {
+			if o != st && o.op.kind == "Stop" && o.inv < st.ret && (o.ret == 0 || o.ret > st.ret) {
+				started = false
+			}
+		}
+		if !started {
+			continue
+		}
+		for _, sc := range c.sk.calls {
+			if sc.at > st.ret && !c.callers[sc.thr] {
+				what := "Write"
+				if sc.sync {
+					what = "Sync"
+				}
+				return "", fmt.Errorf("after a Stop (thread %d) had returned, a background goroutine (scheduler thread %d) called the sink's %s: flush work still running after Stop", st.thr, sc.thr, what)
 			}
 		}
 	}
